@@ -206,11 +206,15 @@ def mon_c09(case, out):
             fdsrv = {}
             continue
         first_tx = True
+        # the request's own query draws its id first; a probe to a failed server, sent by the same call, draws later
+        own_id = next((a[1] for n, a in evs if n == "rnd" and a and a[0] == "2"), None)
         for name, args in evs:
             if name == "tx":
                 if not first_tx:
                     continue          # later transmissions of the op are probes / reactions
                 first_tx = False
+                if own_id is not None and _kv(args).get("id") != own_id:
+                    continue          # the request itself is still buffered (TCP); this is the probe
             if name == "send!":
                 first_tx = False      # the attempt itself (refused by the socket layer); what follows is a probe
             if name == "srv":
@@ -248,13 +252,21 @@ def mon_c05(case, out):
     txinfo = []      # per tx: dict(id,q,t,c,fd,tcp)
     replies = {}     # marker(tx number) -> list of forged flags of replies built for it
     dns0x20 = False
+    now = 0
+    good_marks = {}   # marker -> True for replies that carried a well-formed server cookie to a cookie-bearing UDP request
+    good_at = None    # virtual time at which such a reply was last delivered (single-server cookie scenarios only)
+    nservers = 1
     for op, evs, line in _iter(case, out):
         t = op.split()
         kv = _kv(t)
         if t[0] == "chan":
             txinfo, replies = [], {}
             dns0x20 = bool(int(kv.get("flags", "0")) & 1024)
+            now, good_marks, good_at = 0, {}, None
+            nservers = len(kv.get("servers", "x").split(","))
             continue
+        if t[0] == "adv":
+            now += int(kv.get("ms", t[1] if len(t) > 1 and t[1].isdigit() else 0))
         for name, args in evs:
             if name == "tx":
                 d = _kv(args)
@@ -264,7 +276,15 @@ def mon_c05(case, out):
             k = int(kv.get("tx", "0"))
             k = k if k >= 0 else len(txinfo) + k
             forged = any(x in kv for x in ("idadd", "qtadd", "qcadd")) or kv.get("qname") == "other" \
-                or kv.get("src") == "other" or (kv.get("qname") == "flipcase" and dns0x20 and 0 <= k < len(txinfo) and not txinfo[k]["_tcp"])
+                or (kv.get("src") == "other" and 0 <= k < len(txinfo) and not txinfo[k]["_tcp"]) or (kv.get("qname") == "flipcase" and dns0x20 and 0 <= k < len(txinfo) and not txinfo[k]["_tcp"])
+            ck = kv.get("cookie", "")
+            withck = 0 <= k < len(txinfo) and not txinfo[k]["_tcp"] and txinfo[k].get("ck", "-") != "-"
+            if withck and not forged and ck.startswith("new:") and 16 <= len(ck) - 4 <= 64 and (len(ck) - 4) % 2 == 0:
+                good_marks[int(kv.get("mark", k))] = True
+            # RFC 7873 / ares_cookie_validate: once the server has shown a server cookie, a response to a cookie-bearing
+            # UDP request that lacks one is dropped for 120 s (then support is considered withdrawn)
+            if withck and nservers == 1 and ck in ("none", "clientonly") and good_at is not None and now - good_at < 120000:
+                forged = True
             if kv.get("kind", "noerror") == "noerror" and int(kv.get("an", "1")) > 0:
                 mark = int(kv.get("mark", k))
                 replies.setdefault(mark, []).append(forged)
@@ -272,6 +292,8 @@ def mon_c05(case, out):
             m = re.match(r"cb\((\d+),ok,to=\d+,rc=0,an=\d+,10\.(\d+)\.(\d+)\.\d+/", e)
             if m:
                 mark = int(m.group(2)) * 256 + int(m.group(3))
+                if good_marks.get(mark):
+                    good_at = now
                 fl = replies.get(mark)
                 if fl is not None and fl and all(fl):
                     bad.append(("forged-reply-delivered", "callback %s got data from reply marker %d, which was forged: %s"
@@ -365,7 +387,9 @@ def mon_c12(case, out):
                         return o in ("nodata", "nxdomain") or (o in ("servfail", "refused") and cand.count(".") == 0)
                     stop = None
                     for k, o in enumerate(outs_):
-                        if not soft(o, cands[k]):
+                        # the single-label exemption (issue #852) looks at the candidate as built: "host" + root domain
+                        # is "host.", two labels to ares_name_label_cnt
+                        if not soft(o, cur["cands"][k]):
                             stop = k
                             break
                     st_map = {"noerror": "ok", "nodata": "nodata", "nxdomain": "notfound", "servfail": "servfail",
